@@ -95,6 +95,8 @@ def judge_c02(ctx, funcs, segs, outs, meta):
             ctx.count("calls_compared")
             if step["how"] == "shelve":
                 ctx.count("shelved_calls")
+            if step.get("via_class"):
+                ctx.count("method_calls_through_the_class")
             fp = repr(p["v"])
             key = (step["f"], step.get("holder") if f["kind"] in ("method", "classmethod") else None)
             if fp not in seen_fp.setdefault(key, set()):
